@@ -485,12 +485,18 @@ def check_poly_mapper():
     res = ItemResult(item="polynomial through mappers", sample={"family": "IdentityMapper / substitution on coefficients"})
     X, a, b = p.Variable("X"), p.Variable("a"), p.Variable("b")
     polys = [Polynomial(X, ((0, a), (1, b), (3, 2))), Polynomial(X, ((1, p.Sum((a, 1))), (2, p.Product((a, b))))),
-             Polynomial(p.Sum((X, a)), ((0, 1), (2, b)))]
+             Polynomial(p.Sum((X, a)), ((0, 1), (2, b))),
+             # coefficients that a substitution turns into zero: leading, inner, lowest, several
+             Polynomial(X, ((0, 1), (1, 2), (2, a))), Polynomial(X, ((0, 1), (1, a), (2, 2))), Polynomial(X, ((0, a), (1, 2), (3, b))),
+             Polynomial(X, ((1, b), (2, a), (4, a)))]
     env = {"X": Fraction(3, 2), "a": 5, "b": -2}
     for poly in polys:
         for mname, mp in (("IdentityMapper", lambda e: IdentityMapper()(e)),
                           ("substitute a->7", lambda e: substitute(e, {"a": 7})),
-                          ("substitute b->a+1", lambda e: substitute(e, {"b": p.Sum((a, 1))}))):
+                          ("substitute b->a+1", lambda e: substitute(e, {"b": p.Sum((a, 1))})),
+                          ("substitute a->0", lambda e: substitute(e, {"a": 0})),
+                          ("substitute b->0", lambda e: substitute(e, {"b": 0})),
+                          ("substitute a->0,b->0", lambda e: substitute(e, {"a": 0, "b": 0}))):
             res.path_assertions += 1
             try:
                 r = mp(poly)
@@ -499,8 +505,18 @@ def check_poly_mapper():
                     env2["a"] = 7
                 if "b->a+1" in mname:
                     env2["b"] = env["a"] + 1
-                got, want = evaluate(r, env), evaluate(poly, env2)
-                ok = got == want and isinstance(r, Polynomial) and len(r.data) == len(poly.data)
+                if "a->0" in mname:
+                    env2["a"] = 0
+                if "b->0" in mname:
+                    env2["b"] = 0
+                # the result must not mention a replaced name any more: evaluate it WITHOUT those names
+                env_r = {k: v for k, v in env.items() if not ((k == "a" and ("a->" in mname)) or (k == "b" and "b->0" in mname))}
+                if "b->a+1" in mname:
+                    env_r = {k: v for k, v in env.items() if k != "b"}
+                got = evaluate(r, env_r) if isinstance(r, p.Expression) else r
+                want = evaluate(poly, env2)
+                zeroing = "->0" in mname
+                ok = got == want and (zeroing or (isinstance(r, Polynomial) and len(r.data) == len(poly.data)))
                 detail = f"{mname}({poly!r}) = {r!r}: evaluates to {got}, expected {want}"
             except Exception as e:  # noqa: BLE001
                 ok, detail = False, f"{mname}({poly!r}) raised {e!r}"
